@@ -38,6 +38,11 @@
         reference graph (`c`/`f`/`x`/`o` per node id; edges `k:t,t;k:;…` or `-`): `tarjan` and
         `find_compilation_order` as written (Model/Tarjan.lean), the verified certificate checker on
         the components, and the documented rule `TcValueCycle.ruleRejects` (a constant on a cycle)
+    c07 scope (q (mods (mod N P|- (id…) (path…))…) (enums (T K…)…) (uses (use M ((path…)…) path)…))
+                                    → wf=<0|1> imports=<0|1> | <verdict> ; <verdict> …
+        the scoping rules for packages of several modules (`Model/TcModules.lean`): per use
+        `ok module:i` | `ok item:m:id` | `ok variant:m:t:k` | `err import` | `err scope`;
+        id ::= super | pkg | m<N> | f<N> | C<N> | T<N> | K<N>,  path ::= (id…)
     c07 cyccert <kinds> <edges> <comps> → valid=<0|1>   (`Tarjan.validOrder` on components computed by the real code)
 -/
 import Driver.Util
@@ -47,6 +52,7 @@ import RotoV.Model.TcRules
 import RotoV.Model.TcInfer
 import RotoV.Model.TcInferSem
 import RotoV.Model.TcValueCycle
+import RotoV.Model.TcModules
 
 namespace Driver.C07
 open RotoV RotoV.Typing
@@ -538,6 +544,69 @@ def handleCycCert (kinds edges comps : String) : String :=
     if RotoV.Tarjan.validOrder g cs then "valid=1" else "valid=0"
   | _, _, _ => "bad-op"
 
+/-! ### `c07 scope`: the module layer of the oracle (`Model/TcModules.lean`) -/
+
+def parseIdent (s : String) : Option TcModules.Ident :=
+  if s == "super" then some .sup
+  else if s == "pkg" then some .pkg
+  else
+    let n := (s.drop 1).toNat?
+    match s.toList.head? with
+    | some 'm' => n.map .mod
+    | some 'f' => n.map .fn
+    | some 'C' => n.map .const
+    | some 'T' => n.map .ty
+    | some 'K' => n.map .variant
+    | _ => none
+
+def showIdent : TcModules.Ident → String
+  | .sup => "super" | .pkg => "pkg" | .mod n => s!"m{n}" | .fn n => s!"f{n}"
+  | .const n => s!"C{n}" | .ty n => s!"T{n}" | .variant n => s!"K{n}"
+
+def parsePath : Sexp → Option TcModules.Path
+  | .list xs => xs.mapM fun x => match x with
+    | .atom a => parseIdent a
+    | _ => none
+  | _ => none
+
+def parseModule : Sexp → Option TcModules.Module
+  | .list [.atom "mod", .atom n, .atom par, .list items, .list imps] => do
+    let parent ← if par == "-" then some none else par.toNat?.map some
+    pure ⟨← n.toNat?, parent, ← parsePath (.list items), ← imps.mapM parsePath⟩
+  | _ => none
+
+def parseUse : Sexp → Option TcModules.Use
+  | .list [.atom "use", .atom m, .list frames, path] => do
+    let fs ← frames.mapM fun f => match f with
+      | .list ps => ps.mapM parsePath
+      | _ => none
+    pure ⟨← m.toNat?, fs, ← parsePath path⟩
+  | _ => none
+
+def showVerdict : TcModules.Verdict → String
+  | .ok (.module i) => s!"ok module:{i}"
+  | .ok (.item m x) => s!"ok item:{m}:{showIdent x}"
+  | .ok (.variant m t k) => s!"ok variant:{m}:{t}:{k}"
+  | .badImport => "err import"
+  | .notInScope => "err scope"
+
+def handleScope (text : String) : String :=
+  match parseSexp (tokens text) with
+  | some (.list [.atom "q", .list (.atom "mods" :: ms), .list (.atom "enums" :: es), .list (.atom "uses" :: us)], []) =>
+    let parsed : Option (TcModules.Pkg × List TcModules.Use) := do
+      let mods ← ms.mapM parseModule
+      let enums ← es.mapM fun e => match e with
+        | .list (t :: ks) => do pure (← parseNat t, ← ks.mapM parseNat)
+        | _ => none
+      pure (⟨mods, enums⟩, ← us.mapM parseUse)
+    match parsed with
+    | some (p, uses) =>
+      let b (x : Bool) := if x then "1" else "0"
+      s!"wf={b (TcModules.wfPkg p)} imports={b (TcModules.pkgImportsOk p)} | " ++
+        " ; ".intercalate (uses.map fun u => showVerdict (TcModules.checkUse p u))
+    | none => "bad-parse"
+  | _ => "bad-parse"
+
 def handle (args : List String) : String :=
   match args with
   | ["cyc", kinds, edges] => handleCyc kinds edges
@@ -564,6 +633,7 @@ def handle (args : List String) : String :=
     | some n, some prog => if n ≤ 4 then (if ltypable n prog then "typable" else "untypable") else "bad-op"
     | _, _ => "bad-op"
   | "prog" :: rest => handleProg (" ".intercalate rest)
+  | "scope" :: rest => handleScope (" ".intercalate rest)
   | "infer" :: rest => handleInfer (" ".intercalate rest)
   | ["op", op, l, r] =>
     match parseOp op, parseOTy l, parseOTy r with
